@@ -319,7 +319,6 @@ func (w *World) withinDepth(fn *ssa.Function, owners []*ssa.Function, depth int,
 	return true
 }
 
-
 // isBranchPredicate: c is a call to an inlinable predicate whose result is used (possibly
 // negated) as a branch condition.
 func isBranchPredicate(c *ssa.Call) bool {
